@@ -902,4 +902,61 @@ func c31files(e *c31env, idx *int) {
 		}
 	}
 	scn.Sample(map[string]string{"files": `a.json {"tags":{"a":"1"},"retry_interval":"1s"}  b.json {"tags":{"a":"2","b":"1"},"start_join":["x"]}`, "expected": `ReadConfigPaths([a,b]) == ReadConfigPaths([dir]) == Merge(Merge({},a),b) == {Tags:{a:2,b:1} RetryInterval:1s StartJoin:[x]}`})
+	c31unreadable(ctx, tmp, idx)
+}
+
+// c31unreadable: a directory entry that cannot be read or decoded (zero-length file, whitespace
+// only, a dangling symbolic link, a name that vanished). The statement does not say whether the
+// read must fail; what it excludes is a third outcome: if ReadConfigPaths succeeds, the result must
+// be the one-by-one merge of the files that COULD be read (an unreadable entry is not a source).
+func c31unreadable(ctx *vc.Ctx, tmp string, idx *int) {
+	scn := ctx.Scn("files/unreadable-entries", "cases")
+	goodA := `{"node_name":"a","enable_compression":true,"tags":{"t":"1"},"retry_interval":"3s","start_join":["x"]}`
+	goodC := `{"enable_compression":true,"tags":{"u":"2"},"start_join":["y"]}`
+	kinds := []string{"empty-file", "whitespace-file", "dangling-symlink", "empty-object"}
+	for ki, kind := range kinds {
+		for _, pos := range []string{"last", "middle", "first"} {
+			*idx++
+			if !ctx.Mine(*idx) {
+				continue
+			}
+			dir := filepath.Join(tmp, fmt.Sprintf("unreadable-%d-%s", ki, pos))
+			os.MkdirAll(dir, 0o755)
+			bad := map[string]string{"last": "z.json", "middle": "b.json", "first": "0.json"}[pos]
+			os.WriteFile(filepath.Join(dir, "a.json"), []byte(goodA), 0o644)
+			os.WriteFile(filepath.Join(dir, "c.json"), []byte(goodC), 0o644)
+			switch kind {
+			case "empty-file":
+				os.WriteFile(filepath.Join(dir, bad), nil, 0o644)
+			case "whitespace-file":
+				os.WriteFile(filepath.Join(dir, bad), []byte(" \n"), 0o644)
+			case "dangling-symlink":
+				os.Symlink(filepath.Join(dir, "no-such-target"), filepath.Join(dir, bad))
+			case "empty-object":
+				os.WriteFile(filepath.Join(dir, bad), []byte("{}"), 0o644) // readable: a source that sets nothing but the compression switch
+			}
+			got, err := agent.ReadConfigPaths([]string{dir})
+			out := "refused"
+			if err == nil {
+				readable := []string{filepath.Join(dir, "a.json"), filepath.Join(dir, "c.json")}
+				if kind == "empty-object" {
+					readable = []string{filepath.Join(dir, "0.json"), filepath.Join(dir, "a.json"), filepath.Join(dir, "b.json"), filepath.Join(dir, "c.json"), filepath.Join(dir, "z.json")}
+					var ex []string
+					for _, r := range readable {
+						if _, e := os.Stat(r); e == nil {
+							ex = append(ex, r)
+						}
+					}
+					readable = ex
+				}
+				want, werr := agent.ReadConfigPaths(readable)
+				out = "read, equals the merge of the readable files"
+				if werr != nil || !reflect.DeepEqual(got, want) {
+					out = "differs"
+					ctx.Violation(scn.Name, "files: an entry that cannot be read changes the result", fmt.Sprintf("directory with a.json %s, c.json %s and %s as %q (%s): ReadConfigPaths succeeded with %+v; the files that can be read, merged one by one, give %+v (err %v)", goodA, goodC, bad, kind, pos, *got, want, werr), nil)
+				}
+			}
+			scn.Case(out, true)
+		}
+	}
 }
